@@ -235,6 +235,9 @@ class C31(Property):
                 mu = expb[d].mean(); N = obs[d].size
                 if mu > 0 and abs(obs[d].mean() - mu) > 6.0 * np.sqrt(mu / N):
                     ctx.violation("mean-count-not-dose-times-signal", c, {"dose_index": d, "observed_mean": float(obs[d].mean()), "expected": float(mu)})
+            if c.get("negative") and np.abs(obs[..., 0, 0]).max() != 0:
+                # a negative intensity is clipped to rate 0, and Poisson(0) is 0 with certainty
+                ctx.violation("negative-intensity-not-clipped-to-zero-counts", c, {"counts_at_negative_pixels": obs[..., 0, 0].reshape(-1)[:8].tolist()})
             e2 = run_noise(base, arr, False)
             if c["seed"] is not None and not np.array_equal(e2[1], ea):
                 ctx.violation("eager-not-reproducible", c, {})
